@@ -214,6 +214,44 @@ def rule_line_args(ctx, rep):
     rule_pattern_args(ctx, rep, rule_id="R-LINE-ARGS", families=(0,))
 
 
+def rule_line_patterns_all(ctx, rep):
+    rep.rule(
+        "R-LINE-PATTERNS-ALL",
+        "file_line_patterns yields one line per matching `path:line` pattern: its result is a list built by iterating the patterns, "
+        "with no intermediate mapping keyed by the path part (two entries for the same path would collapse into one)",
+        min_instances=1,
+    )
+    fn = ctx.prog.func("codemodder.code_directory.file_line_patterns")
+    r = ctx.resolver(fn)
+    problems = []
+    rets = [n.value for n in walk_no_nested(fn.node) if isinstance(n, ast.Return) and n.value is not None]
+    for rv in rets:
+        v = r.expand(rv)
+        if isinstance(v, ast.ListComp):
+            it = v.generators[0].iter
+            src = r.expand(it)
+            if not (isinstance(src, ast.Name) and src.id == "patterns"):
+                # iterating something derived from the patterns: must not be a dict / set
+                problems.append(f"the result iterates `{unparse(it)[:40]}` instead of the pattern list itself")
+        elif isinstance(v, ast.Call) and call_name(v) in ("list", "sorted") and v.args and isinstance(r.expand(v.args[0]), (ast.DictComp, ast.SetComp, ast.Dict, ast.Set)):
+            problems.append("the result is taken from a dict/set (duplicates of the same path collapse)")
+        elif isinstance(v, ast.Name):
+            pass
+    for n in walk_no_nested(fn.node):
+        if isinstance(n, (ast.DictComp, ast.SetComp)) or (isinstance(n, ast.Call) and call_name(n) in ("dict", "set")):
+            problems.append(f"`{unparse(n)[:50]}` builds a mapping/set between the patterns and the result")
+    # helpers called by it
+    for c in walk_no_nested(fn.node):
+        if isinstance(c, ast.Call):
+            for t in r.resolve_call(c):
+                if isinstance(t, FuncInfo) and t.module is fn.module and t is not fn:
+                    for n in walk_no_nested(t.node):
+                        if isinstance(n, (ast.DictComp, ast.SetComp, ast.Dict)) or (isinstance(n, ast.Call) and call_name(n) in ("dict", "set")) or (isinstance(n, ast.Assign) and isinstance(n.targets[0], ast.Subscript)):
+                            problems.append(f"helper {t.name} keys the patterns in a mapping (`{unparse(n)[:40]}`)")
+                            break
+    rep.check("R-LINE-PATTERNS-ALL", fn.qname, fn.loc(), not problems, "one-line-per-pattern", "; ".join(problems[:3]))
+
+
 def check(ctx, rep):
     rep.explanation = (
         "All 101 registered codemods' transformer classes (71 classes + the helper visitors they drive) are analysed with the "
@@ -226,4 +264,5 @@ def check(ctx, rep):
     rule_filter_sibling(ctx, rep)
     rule_original_node_position(ctx, rep)
     rule_line_args(ctx, rep)
+    rule_line_patterns_all(ctx, rep)
     rep.not_covered += ["fnmatch semantics of `path:line` spellings", "multi-line constructs (match_line requires start == end == line)"]
